@@ -103,8 +103,18 @@ func (s *atpServerSession) sendRuntimeMessage(msgID uint32, runID string, messag
 }
 
 func (s *atpServerSession) handleClosure() []*ServerError {
+	// Whatever makes this function stop: steps and signal handlers that are still running keep sending their reports
+	// until workDone is closed. Keep taking them, so that none of them blocks for ever on a full channel.
+	defer func() {
+		go func() {
+			for range s.workDone { //nolint:revive
+			}
+		}()
+	}()
 	// Wait for work done or context complete.
 	var errors []*ServerError
+	outputBroken := false
+	stdinClosed := false
 closeLoop:
 	for {
 		select {
@@ -113,6 +123,10 @@ closeLoop:
 				break closeLoop
 			}
 			errors = append(errors, &errorSent)
+			if outputBroken {
+				// Nobody can be told any more. Keep collecting what the remaining steps report.
+				continue
+			}
 			err := s.sendRuntimeMessage(
 				MessageTypeError,
 				errorSent.RunID,
@@ -125,9 +139,12 @@ closeLoop:
 			// If that didn't send, just send to stderr now.
 			if err != nil {
 				_, _ = fmt.Fprintf(os.Stderr, "error while sending error message: %s\n", err)
+				outputBroken = true
 			}
-			// If either the error report sending failed, or the error was server fatal, stop here.
-			if err != nil || errorSent.ServerFatal {
+			// If either the error report sending failed, or the error was server fatal, stop reading input. Steps that
+			// are still running are reported until they have all finished and workDone is closed.
+			if (err != nil || errorSent.ServerFatal) && !stdinClosed {
+				stdinClosed = true
 				err = s.stdinCloser.Close()
 				if err != nil {
 					return append(errors, &ServerError{
@@ -136,8 +153,6 @@ closeLoop:
 						StepFatal:   true,
 						ServerFatal: true,
 					})
-				} else {
-					break closeLoop
 				}
 			}
 		case <-s.ctx.Done():
@@ -315,8 +330,13 @@ func (s *atpServerSession) handleSignalMessage(runID string, signalMessage Signa
 func (s *atpServerSession) run() {
 	defer func() {
 		s.runDoneChannel <- true
-		close(s.workDone)
 		s.wg.Done()
+		// Steps and signal handlers that are still running report on workDone. Close it only once they are all done
+		// (no more are started after the read loop has ended), so that none of them sends on a closed channel.
+		go func() {
+			s.wg.Wait()
+			close(s.workDone)
+		}()
 	}()
 
 	err := s.sendInitialMessagesToClient()
